@@ -294,6 +294,9 @@ def run(prog, rep):
                     "merge adds clones of the source Properties: clone() hands the stored values to the values setter of the copy (the only writer "
                     "of _values that also re-imports n-tuple values); a clone that fills _values itself raises for tuple dtypes in the middle of a "
                     "merge. The converters merge relies on for non strict merges return normal forms (RET-1)")
+    import_verdicts(prog, rep, "C11", ("DIRECT-1",), "CHILD-I",
+                    "merge finds the destination counterpart of a source child with contains() and adds clone()s of the children the destination "
+                    "lacks: both must work on direct children only")
     strict_forwarded(prog, rep, "FWD-1")
     pure_footprint(prog, rep, S, ["section.BaseSection.merge", "property.BaseProperty.merge"], "PURE-1")
     merge_adds_clones(prog, rep, S, "ALIAS-4")
